@@ -291,7 +291,7 @@ theorem truncated_only_when_full (pm : List Path) (rules : List Rule) (o : Opts)
   obtain ⟨_, _, _, _, h3⟩ := capLoop_spec o.maxErrors (partialGroups mkErr (leafPaths pm) (ownTags rules) o) []
   rw [validatePartial, partialFrom_trunc] at ht
   have := h3 ht
-  rw [(partialFrom_fields mkErr (leafPaths pm) (ownTags rules) o).length_eq]
+  rw [validatePartial, (partialFrom_fields mkErr (leafPaths pm) (ownTags rules) o).length_eq]
   exact this
 
 /-- with single-field rules (at most one error per field) the list never exceeds the maximum, is
@@ -338,5 +338,248 @@ theorem redacted_nested_absent (pm : List Path) (rules : List Rule) (o : Opts) (
 theorem validate_perm (pm₁ pm₂ : List Path) (h : pm₁.Perm pm₂) (rules : List Rule) (o : Opts) :
     validatePartial pm₁ rules o = validatePartial pm₂ rules o := by
   unfold validatePartial; rw [leaf_perm pm₁ pm₂ h]
+
+/-! ## 5. full validation: the same pipeline over the validator's own error list -/
+
+theorem lemma_mem_fullGroups (errs : List (Path × Viol)) (o : Opts) (e : FieldErr) :
+    e ∈ (fullGroups mkErr errs o).flatten ↔ ∃ pv ∈ errs, e = mkErr o pv.1 pv.2 := by
+  simp only [fullGroups, List.mem_flatten, List.mem_map]
+  constructor
+  · rintro ⟨g, ⟨pv, hpv, rfl⟩, he⟩
+    exact ⟨pv, hpv, by simpa using he⟩
+  · rintro ⟨pv, hpv, rfl⟩
+    exact ⟨_, ⟨pv, hpv, rfl⟩, by simp⟩
+
+/-- every returned error is one the validator reported (path, code) with the redaction rule applied -/
+theorem full_sound (errs : List (Path × Viol)) (o : Opts) (e : FieldErr)
+    (he : e ∈ fieldsOf (validateFull errs o)) : ∃ pv ∈ errs, e = mkErr o pv.1 pv.2 := by
+  obtain ⟨k, _, h1, _, _⟩ := capLoop_spec o.maxErrors (fullGroups mkErr errs o) []
+  have hf := validateFull_fields mkErr errs o
+  rw [h1, List.nil_append] at hf
+  exact (lemma_mem_fullGroups errs o e).mp (lemma_mem_take_flatten _ k e (hf.mem_iff.mp he))
+
+/-- nothing the validator reported is dropped unless `Truncated` is set -/
+theorem full_complete (errs : List (Path × Viol)) (o : Opts) (ht : truncOf (validateFull errs o) = false)
+    (pv : Path × Viol) (hpv : pv ∈ errs) : mkErr o pv.1 pv.2 ∈ fieldsOf (validateFull errs o) := by
+  obtain ⟨k, _, h1, h2, _⟩ := capLoop_spec o.maxErrors (fullGroups mkErr errs o) []
+  have ht' : (capLoop o.maxErrors (fullGroups mkErr errs o) []).2 = false := by
+    rw [← validateFull_trunc]; exact ht
+  have hf := validateFull_fields mkErr errs o
+  rw [h1, List.nil_append, h2 ht', List.take_length] at hf
+  exact hf.mem_iff.mpr ((lemma_mem_fullGroups errs o _).mpr ⟨pv, hpv, rfl⟩)
+
+/-- full mode adds one error at a time, so the cap is exact without any hypothesis on the rules -/
+theorem full_capped (errs : List (Path × Viol)) (o : Opts) (hm : o.maxErrors > 0) :
+    (fieldsOf (validateFull errs o)).length ≤ o.maxErrors ∧
+    (truncOf (validateFull errs o) = true → (fieldsOf (validateFull errs o)).length = o.maxErrors) ∧
+    (truncOf (validateFull errs o) = false → (fieldsOf (validateFull errs o)).length < o.maxErrors) := by
+  have hg : ∀ g ∈ fullGroups mkErr errs o, g.length ≤ 1 := by
+    intro g hg
+    simp only [fullGroups, List.mem_map] at hg
+    obtain ⟨pv, _, rfl⟩ := hg
+    simp
+  have := capLoop_capped o.maxErrors hm _ hg [] (by simpa using hm)
+  rw [validateFull, validateFull_trunc, (validateFull_fields mkErr errs o).length_eq]
+  exact this
+
+theorem full_truncated_only_when_full (errs : List (Path × Viol)) (o : Opts)
+    (ht : truncOf (validateFull errs o) = true) :
+    o.maxErrors > 0 ∧ (fieldsOf (validateFull errs o)).length ≥ o.maxErrors := by
+  obtain ⟨_, _, _, _, h3⟩ := capLoop_spec o.maxErrors (fullGroups mkErr errs o) []
+  rw [validateFull, validateFull_trunc] at ht
+  have := h3 ht
+  rw [validateFull, (validateFull_fields mkErr errs o).length_eq]
+  exact this
+
+theorem full_sorted (errs : List (Path × Viol)) (o : Opts) :
+    (fieldsOf (validateFull errs o)).Pairwise (fun a b => errLe a b = true) :=
+  validateFull_sorted _ _ _
+
+theorem full_redacted_absent (errs : List (Path × Viol)) (o : Opts) (e : FieldErr)
+    (he : e ∈ fieldsOf (validateFull errs o)) :
+    ∃ pv ∈ errs, e = mkErr o pv.1 pv.2 ∧
+      ((pv.1 ∈ o.redacted ∨ ∃ q ∈ pv.2.shows, q ∈ o.redacted) → e.hidden = true) := by
+  obtain ⟨pv, hpv, rfl⟩ := full_sound errs o e he
+  refine ⟨pv, hpv, rfl, ?_⟩
+  intro h
+  simp only [mkErr, Bool.or_eq_true, List.any_eq_true, List.contains_iff_mem]
+  rcases h with h | ⟨q, hq, hqr⟩
+  · exact Or.inl h
+  · exact Or.inr ⟨q, hq, hqr⟩
+
+/-! ## 5b. the model passes the very oracle the driver evaluates on the implementation -/
+
+/-- sufficient conditions, in `Prop` form, for the Boolean oracle `errorsOK` -/
+theorem lemma_errorsOK_of (want : List Want) (o : Opts) (single : Bool) (obs : Option Result)
+    (h1 : ∀ e ∈ fieldsOf obs, ∃ w ∈ want, w.path = e.path ∧ w.code = e.code ∧
+      (e.hidden = false → e.path ∉ o.redacted ∧ ¬ ∃ q ∈ w.shows, q ∈ o.redacted))
+    (h2 : truncOf obs = false → ∀ w ∈ want, ∃ e ∈ fieldsOf obs, e.path = w.path ∧ e.code = w.code)
+    (h3 : o.maxErrors > 0 → single = true → (fieldsOf obs).length ≤ o.maxErrors)
+    (h4 : truncOf obs = true → o.maxErrors > 0 ∧ (fieldsOf obs).length ≥ o.maxErrors)
+    (h5 : ∀ r, obs = some r → r.fields ≠ [])
+    (h6 : (fieldsOf obs).Pairwise (fun a b => errLe a b = true)) :
+    errorsOK want o single obs = true := by
+  unfold errorsOK
+  simp only [Bool.and_eq_true]
+  refine ⟨⟨⟨⟨⟨⟨?c1, ?c2⟩, ?c3⟩, ?c4⟩, ?c5⟩, ?c6⟩, ?c7⟩
+  case c1 =>
+    simp only [List.all_eq_true, List.mem_map, List.contains_iff_mem]
+    rintro pc ⟨e, he, rfl⟩
+    obtain ⟨w, hw, hp, hc, _⟩ := h1 e he
+    exact ⟨w, hw, by rw [hp, hc]⟩
+  case c2 =>
+    cases htr : truncOf obs with
+    | false =>
+      simp only [Bool.false_and, Bool.or_false, List.isEmpty_iff, List.filter_eq_nil_iff]
+      intro pc hpc
+      obtain ⟨w, hw, rfl⟩ := List.mem_map.mp hpc
+      obtain ⟨e, he, hp, hc⟩ := h2 htr w hw
+      intro hcon
+      have : (w.path, w.code) ∈ (fieldsOf obs).map fun e => (e.path, e.code) :=
+        List.mem_map.mpr ⟨e, he, by rw [hp, hc]⟩
+      rw [← List.contains_iff_mem] at this
+      rw [this] at hcon
+      simp at hcon
+    | true =>
+      have := h4 htr
+      simp [this.1, this.2]
+  case c3 =>
+    by_cases hm : o.maxErrors > 0
+    · cases single with
+      | false => simp
+      | true => simp [hm, h3 hm rfl]
+    · simp [hm]
+  case c4 =>
+    cases htr : truncOf obs with
+    | false => simp
+    | true => have := h4 htr; simp [this.1, this.2]
+  case c5 =>
+    cases obs with
+    | none => rfl
+    | some r => simpa [fieldsOf, List.isEmpty_iff] using h5 r rfl
+  case c6 => exact errSorted_of_pairwise h6
+  case c7 =>
+    simp only [List.all_eq_true]
+    intro e he
+    obtain ⟨w, hw, hp, hc, hh⟩ := h1 e he
+    cases hhid : e.hidden with
+    | true => simp
+    | false =>
+      obtain ⟨hnr, hns⟩ := hh hhid
+      simp only [Bool.false_or, Bool.not_eq_true', Bool.or_eq_false_iff, Bool.and_eq_false_iff]
+      refine ⟨by simpa using hnr, ?_⟩
+      right
+      -- the want that produced `e` is among the matching ones and does not demand hiding
+      simp only [List.all_eq_false]
+      refine ⟨w, ?_, ?_⟩
+      · simp [List.mem_filter, hw, hp, hc]
+      · simp only [Bool.not_eq_true, List.any_eq_false, List.contains_iff_mem]
+        intro q hq hqr
+        exact hns ⟨q, hq, hqr⟩
+
+/-- **partial validation, model ⊨ oracle**: for every presence set, rule table and option set the
+    model's result passes `errorsOK` against the declaratively expected error list — the check the
+    driver runs on what the real code returned -/
+theorem errorsOK_model_partial (pm : List Path) (rules : List Rule) (o : Opts) (single : Bool)
+    (hs : single = true → ∀ p, (ownTags rules p).length ≤ 1) :
+    errorsOK (expectedErrs pm rules o) o single (validatePartial pm rules o) = true := by
+  have hexp : expectedErrs pm rules o =
+      ((leafPaths pm).take (maxLeaves o)).flatMap fun p =>
+        (ownTags rules p).map fun v => (⟨p, tagPrefix ++ v.tag, v.shows⟩ : Want) := by
+    unfold expectedErrs
+    rw [← leafPaths_eq_spec]
+    congr 1
+    funext p
+    exact lemma_violations rules p
+  have hmemL : ∀ e ∈ fieldsOf (validatePartial pm rules o),
+      ∃ p ∈ (leafPaths pm).take (maxLeaves o), ∃ v ∈ ownTags rules p, e = mkErr o p v := by
+    intro e he
+    obtain ⟨k, hk⟩ := partial_prefix pm rules o
+    exact (lemma_mem_groups _ _ _ _).mp (lemma_mem_take_flatten _ k e (hk.mem_iff.mp he))
+  apply lemma_errorsOK_of
+  · intro e he
+    obtain ⟨p, hp, v, hv, rfl⟩ := hmemL e he
+    refine ⟨⟨p, tagPrefix ++ v.tag, v.shows⟩, ?_, rfl, rfl, ?_⟩
+    · rw [hexp]; exact List.mem_flatMap.mpr ⟨p, hp, List.mem_map.mpr ⟨v, hv, rfl⟩⟩
+    · intro hh
+      simp only [mkErr, Bool.or_eq_false_iff, List.any_eq_false, List.contains_iff_mem] at hh
+      refine ⟨by simpa [mkErr] using hh.1, ?_⟩
+      rintro ⟨q, hq, hqr⟩
+      exact hh.2 q hq hqr
+  · intro ht w hw
+    rw [hexp] at hw
+    obtain ⟨p, hp, hw⟩ := List.mem_flatMap.mp hw
+    obtain ⟨v, hv, rfl⟩ := List.mem_map.mp hw
+    refine ⟨mkErr o p v, ?_, rfl, rfl⟩
+    obtain ⟨k, _, h1, h2, _⟩ := capLoop_spec o.maxErrors (partialGroups mkErr (leafPaths pm) (ownTags rules) o) []
+    have ht' : (capLoop o.maxErrors (partialGroups mkErr (leafPaths pm) (ownTags rules) o) []).2 = false := by
+      rw [← partialFrom_trunc]; exact ht
+    have hf := partialFrom_fields mkErr (leafPaths pm) (ownTags rules) o
+    rw [h1, List.nil_append, h2 ht', List.take_length] at hf
+    exact hf.mem_iff.mpr ((lemma_mem_groups _ _ _ _).mpr ⟨p, hp, v, hv, rfl⟩)
+  · intro hm hsingle
+    exact (errors_capped pm rules o hm (hs hsingle)).1
+  · exact truncated_only_when_full pm rules o
+  · intro r hr
+    exact partialFrom_some_nonempty _ _ _ _ r hr
+  · exact errors_sorted pm rules o
+
+/-- **full validation, model ⊨ oracle** -/
+theorem errorsOK_model_full (errs : List (Path × Viol)) (o : Opts) (single : Bool) :
+    errorsOK (errs.map fun pv => ⟨pv.1, tagPrefix ++ pv.2.tag, pv.2.shows⟩) o single (validateFull errs o) = true := by
+  apply lemma_errorsOK_of
+  · intro e he
+    obtain ⟨pv, hpv, rfl⟩ := full_sound errs o e he
+    refine ⟨⟨pv.1, tagPrefix ++ pv.2.tag, pv.2.shows⟩, List.mem_map.mpr ⟨pv, hpv, rfl⟩, rfl, rfl, ?_⟩
+    intro hh
+    simp only [mkErr, Bool.or_eq_false_iff, List.any_eq_false, List.contains_iff_mem] at hh
+    refine ⟨by simpa [mkErr] using hh.1, ?_⟩
+    rintro ⟨q, hq, hqr⟩
+    exact hh.2 q hq hqr
+  · intro ht w hw
+    obtain ⟨pv, hpv, rfl⟩ := List.mem_map.mp hw
+    exact ⟨mkErr o pv.1 pv.2, full_complete errs o ht pv hpv, rfl, rfl⟩
+  · intro hm _
+    exact (full_capped errs o hm).1
+  · exact full_truncated_only_when_full errs o
+  · intro r hr
+    exact validateFull_some_nonempty _ _ _ r hr
+  · exact full_sorted errs o
+
+/-! ## 6. the behaviour as shipped (witnesses of the repaired findings) -/
+
+/-- K05c: `Tags []string validate:"min=2"` with `{"tags":["a","b"]}` — the element `tags.0` has no
+    rule of its own (`resolves = false`), yet as shipped the loop checked it against the container's
+    `min=2` and reported two errors; the repaired loop reports nothing, as the oracle demands -/
+theorem element_rule_asis_witness :
+    let pm := ["tags".toList, "tags.0".toList, "tags.1".toList]
+    let leaves := ["tags.0".toList, "tags.1".toList]
+    let rules : List Rule := [⟨"tags.0".toList, false, [], false, true, some ["min".toList]⟩,
+                             ⟨"tags.1".toList, false, [], false, true, some ["min".toList]⟩]
+    let o : Opts := ⟨0, 0, []⟩
+    (partialLoopAsIs rules o leaves []).map (fun r => r.fields.map (·.path)) = some leaves ∧
+    (partialLoop mkErr (ownTags rules) o leaves []).fields = [] ∧
+    IsLeaf pm "tags.0".toList ∧ ¬ Expected pm rules "tags.0".toList "tag.min".toList := by
+  refine ⟨by decide, by decide, by rw [← isLeafB_iff]; decide, ?_⟩
+  rintro ⟨_, h⟩; revert h; decide
+
+/-- K05c: with a `dive` tag the container's rule panicked on the element (`ctags = none`) -/
+theorem element_rule_asis_panics :
+    validatePartialAsIs (fun _ => ["dive.0".toList]) [] [⟨"dive.0".toList, true, [], false, true, none⟩] ⟨0, 0, []⟩ = none := by
+  decide
+
+/-- K05d: a struct field whose JSON name is a number did not resolve as shipped -/
+theorem numeric_field_asis_witness :
+    ownTagsNum [⟨"1".toList, true, [⟨"email".toList, ["1".toList]⟩], true, true, some ["email".toList]⟩] "1".toList = [] ∧
+    ownTags [⟨"1".toList, true, [⟨"email".toList, ["1".toList]⟩], true, true, some ["email".toList]⟩] "1".toList ≠ [] := by
+  decide
+
+/-- K05f: as shipped only the error's own path was put to the redactor: an error on `kids` whose
+    printed value reveals `kids.1.secret` was not hidden although the redactor covers that path -/
+theorem nested_redaction_asis_witness :
+    let o : Opts := ⟨0, 0, ["kids.1.secret".toList]⟩
+    let v : Viol := ⟨"max".toList, ["kids".toList, "kids.0".toList, "kids.1".toList, "kids.1.secret".toList]⟩
+    (mkErrAsIs o "kids".toList v).hidden = false ∧ (mkErr o "kids".toList v).hidden = true := by
+  decide
 
 end Rivaas.C05
